@@ -213,7 +213,7 @@ fn run(ctx: &Ctx, env: &Env) -> Stats {
     let mut jobs: Vec<Job> = vec![];
     let pair = pairings();
     // (a) the full grid, streamed through rotating pairings
-    let n_small = ctx.t(300u64, 2000);
+    let n_small = ctx.t(300u64, 8000);
     let codes = grid::all_codes_small();
     for e in En::ALL {
         for (ci, chunk) in codes.chunks(8).enumerate() {
@@ -289,7 +289,7 @@ fn run(ctx: &Ctx, env: &Env) -> Stats {
         }
     }
     // (c) random streams with shrinking
-    let n_rand = ctx.t(30_000u64, 1_000_000);
+    let n_rand = ctx.t(30_000u64, 3_000_000);
     for j in 0..16 {
         jobs.push(Box::new(move |ctx: &Ctx| {
             let mut part = Part::new(ctx, format!("random/streams/{}", j), "proptest byte strings decoded into (writer cfg, reader cfg, offset, items, tail)", false);
@@ -350,7 +350,7 @@ writes the preceding bits, the batch and a sentinel, and every return value and 
 written from the published definitions documented by the library (gamma = unary(floor(log2(n+1))) + n+1 without its top bit, delta via gamma, \
 omega recursive blocks ending in 0, zeta_k and Golomb via unary + minimal binary, pi_k via Rice_k, exp-Golomb_k = gamma(n>>k) + k low bits, VByte \
 complete 7-bit groups; little-endian: fields least-significant-bit first, omega blocks rotated by one, minimal binary's extra bit last). Parts: \
-every value below 2^12 (quick) / 2^16 (thorough) for every code with parameters <= 10 (<= 16 thorough), all invocation variants, both \
+every value below 2^12 (quick) / 2^18 (thorough) for every code with parameters <= 10 (<= 16 thorough), all invocation variants, both \
 endiannesses, all five writer words, preceding offset rotating over 0..=W+1 (enumerated completely); the boundary grid of every code/parameter; \
 every offset 0..=W+1 for a code menu. zeta_k values are restricted to (h+1)k <= 63 as the property states. Non-trivial: codeword longer than 8 \
 bits, or little-endian with a multi-bit field, or not starting on a byte boundary; distinct = distinct (configuration, offset, invocation, \
@@ -422,7 +422,7 @@ fn small_param_codes(maxk: u32) -> Vec<Code> {
 
 fn run04(ctx: &Ctx, env: &Env) -> Stats {
     let mut jobs: Vec<Job> = vec![];
-    let top: u64 = ctx.t(1 << 12, 1 << 16);
+    let top: u64 = ctx.t(1 << 12, 1 << 18);
     let maxk = ctx.t(10u32, 16);
     for e in En::ALL {
         for w in Wd::WRITER {
